@@ -25,6 +25,9 @@ type Level struct {
 	Default  *string  `json:"default,omitempty"`
 	// FDAgain: a fraction-digits statement on this level although it is not the one written on decimal64 itself
 	FDAgain int `json:"fd_again,omitempty"`
+	// Enums: enum statements on this level although it is not the one written on enumeration itself (an enumeration
+	// cannot be restricted, let alone extended: RFC 6020 9.6.3)
+	Enums []string `json:"enums,omitempty"`
 }
 
 // Case: base type, typedef levels from the base outwards, and the leaves (each its own final level).
@@ -279,6 +282,9 @@ func genCase(t *rapid.T) Case {
 		if g.pick(3, "restrict") != 0 || isLeaf {
 			mode := []int{0, 0, 0, 4, 0, 1, 0, 4, 3, 0, 2, 0, 4, 3, 0, 0}[g.pick(16, "mode")]
 			if fixedBases[c.Base] != nil {
+				if c.Base == "enumeration" && g.pick(12, "enumagain") == 5 {
+					l.Enums = [][]string{{"four"}, {"one"}, {"one", "two", "three"}, {"two", "five"}}[g.pick(4, "enumagainv")]
+				}
 				if g.pick(20, "wrongkind") == 11 {
 					switch g.pick(3, "wkfixed") {
 					case 0:
@@ -417,6 +423,9 @@ func applyLevel(sp *vt.Space, l Level, base string, fd int, derived bool) (*vt.S
 	if l.FDAgain != 0 && derived {
 		return nil, fmt.Errorf("fraction-digits is given with decimal64 itself, not with a type derived from it")
 	}
+	if len(l.Enums) > 0 {
+		return nil, fmt.Errorf("enum statements are given with enumeration itself, not with a type derived from it")
+	}
 	if fixedBases[base] != nil {
 		if l.Range != "" || l.Length != "" || len(l.Patterns) > 0 {
 			return nil, fmt.Errorf("no restriction applies to %s", base)
@@ -453,7 +462,7 @@ func applyLevel(sp *vt.Space, l Level, base string, fd int, derived bool) (*vt.S
 }
 
 func typeSpec(name string, l Level, fd int, withFD bool) *sg.TypeSpec {
-	t := &sg.TypeSpec{Name: name, Range: l.Range, Length: l.Length, Patterns: l.Patterns}
+	t := &sg.TypeSpec{Name: name, Range: l.Range, Length: l.Length, Patterns: l.Patterns, Enums: l.Enums}
 	if withFD {
 		t.FD = fd
 	} else if l.FDAgain != 0 {
@@ -667,7 +676,7 @@ var _ schema.Type
 var chain = fw.Register(&fw.Prop[Case]{
 	ID: "C13", Name: "chain",
 	Rule: "typedef chains of depth 0-4 over int8..int64, uint8..uint64, decimal64 (fraction-digits 1-3 with small values, 9/12/15 with values of up to 15 significant digits), string, and the restriction-less bases boolean / enumeration / union (defaults only), with at each level an optional range (1-n parts, min/max keywords, single values, adjacent parts) or " +
-		"length + patterns, drawn as a subset of the level below (usually), as a superset / outside, as descending / overlapping / unordered, or of a kind that does not apply; defaults at any level; " +
+		"length + patterns, drawn as a subset of the level below (usually), as a superset / outside, as descending / overlapping / unordered, or of a kind that does not apply (enum statements on a type derived from an enumeration among them); defaults at any level; " +
 		"1-3 leaves sharing the last typedef with different extra restrictions; oracle: exact interval-set model (math/big): compile succeeds iff every restriction is valid and narrows its base and the " +
 		"nearest default is in the final space; then Type().Validate on every bound +- one unit and random probes agrees with membership, and Type().Default() is the nearest default; " +
 		"non-trivial = chain depth >= 2 with >= 2 restrictions",
